@@ -151,6 +151,7 @@ type layerStats struct {
 	Total    int            `json:"programs_in_layer"`
 	CPU      float64        `json:"cpu_s"`
 	DBErrs   int            `json:"observed_memoised_statedb_errors"`
+	Ghosts   map[string]int `json:"observed_cases_with_balance_records_of_reverted_nested_frames"`
 }
 
 type wmsg struct {
@@ -263,6 +264,12 @@ outer:
 				}
 				if a.stateError != "" {
 					ls.DBErrs++
+				}
+				if a.ghosts > 0 {
+					if ls.Ghosts == nil {
+						ls.Ghosts = map[string]int{}
+					}
+					ls.Ghosts["frame opened by "+a.ghostOpener]++
 				}
 				ls.Outcomes[cls]++
 				if sg := signature(cls, a); !sigs[sg] {
@@ -597,6 +604,12 @@ func main() {
 			m.Reverts += ls.Reverts
 			m.CPU += ls.CPU
 			m.DBErrs += ls.DBErrs
+			for k, n := range ls.Ghosts {
+				if m.Ghosts == nil {
+					m.Ghosts = map[string]int{}
+				}
+				m.Ghosts[k] += n
+			}
 			if ls.MaxDepth > m.MaxDepth {
 				m.MaxDepth = ls.MaxDepth
 			}
